@@ -34,7 +34,13 @@ def run_seed(args):
     os.rmdir(wt)
     res = {}
     try:
-        assert sh(["git", "-C", "/repo", "worktree", "add", "--detach", wt, "HEAD"]).returncode == 0
+        for attempt in range(6):     # another process may hold git's worktree lock for a moment
+            if sh(["git", "-C", "/repo", "worktree", "add", "--detach", wt, "HEAD"]).returncode == 0:
+                break
+            import time
+            time.sleep(2 + attempt)
+        else:
+            return sid, {"error": "git worktree add failed"}
         a = sh(["git", "-C", wt, "apply", os.path.join(VERIF, "seeded", sid, "patch.diff")])
         if a.returncode != 0:
             # the tree has moved (fix: commits): try a three-way application before giving up
